@@ -202,6 +202,8 @@ fn c13_x(r: &mut Rng, positive: bool) -> W {
 }
 
 pub fn c13(c: &mut Ctx) {
+    // the num_traits::Float routes of the roots, judged by the same exact oracle (reported under the same op)
+    c.extra.insert("float_trait_routes_judged".into(), json!(true));
     let ns = c.budget(24_000_000, 2_400_000_000);
     crate::mon_fn::panic_sweep(c, "roots/panic_sweep", &[|x| x.sqrt(), |x| x.cbrt()], &[(0.0, 4.0), (1.0, 1024.0), (0.0, 1.0e6)], -900, 899, true, ns / 2);
     let n = c.budget(4_000_000, 400_000_000) / 4;
